@@ -6,6 +6,10 @@ use crate::interpreter::builtins::relative_index;
 use crate::prelude::{String, ToString, Vec, format, math, vec};
 use crate::value::{CheapClone, Guarded, JsObjectRef, JsString, JsValue, PropertyKey};
 
+/// Longest string `repeat`, `padStart` and `padEnd` are willing to build (the limit V8 uses);
+/// a longer result is a RangeError instead of an allocation failure.
+const MAX_STRING_LENGTH: usize = (1 << 29) - 24;
+
 /// Initialize String.prototype with all string methods.
 /// The prototype object must already exist in `interp.string_prototype`.
 pub fn init_string_prototype(interp: &mut Interpreter) {
@@ -625,7 +629,21 @@ pub fn string_repeat(
     args: &[JsValue],
 ) -> Result<Guarded, JsError> {
     let s = interp.to_js_string(&this);
-    let count = args.first().map(|v| v.to_number() as usize).unwrap_or(0);
+    let count = args
+        .first()
+        .map(|v| v.to_integer_or_infinity())
+        .unwrap_or(0.0);
+    if count < 0.0 || count.is_infinite() {
+        return Err(JsError::range_error(format!(
+            "Invalid count value: {}",
+            interp.to_js_string(&JsValue::Number(count))
+        )));
+    }
+    // A result that cannot be allocated is a RangeError too, not a capacity overflow panic
+    let count = count as usize;
+    if s.len().checked_mul(count).is_none_or(|n| n > MAX_STRING_LENGTH) {
+        return Err(JsError::range_error("Invalid string length"));
+    }
     Ok(Guarded::unguarded(JsValue::String(JsString::from(
         s.as_str().repeat(count),
     ))))
@@ -821,6 +839,9 @@ pub fn string_pad_start(
     if current_len >= target_length || pad_string.is_empty() {
         return Ok(Guarded::unguarded(JsValue::String(s)));
     }
+    if target_length > MAX_STRING_LENGTH {
+        return Err(JsError::range_error("Invalid string length"));
+    }
 
     let pad_len = target_length - current_len;
     let mut padding = String::new();
@@ -849,6 +870,9 @@ pub fn string_pad_end(
     let current_len = s.as_str().chars().count();
     if current_len >= target_length || pad_string.is_empty() {
         return Ok(Guarded::unguarded(JsValue::String(s)));
+    }
+    if target_length > MAX_STRING_LENGTH {
+        return Err(JsError::range_error("Invalid string length"));
     }
 
     let pad_len = target_length - current_len;
